@@ -193,7 +193,7 @@ Proof.
     + destruct (List.length (alab b) =? 0) eqn:Eb.
       * rewrite ax_cast_labels. apply Nat.eqb_eq in Eb. rewrite (mem_nil_of_len0 _ l Eb), orb_false_r. reflexivity.
       * simpl. destruct (_ && _ && _ && _).
-        -- destruct (label_le _ _); [rewrite mem_label_rev|]; apply mem_union1d.
+        -- destruct (slopes_down _ _); [rewrite mem_label_rev|]; apply mem_union1d.
         -- rewrite mem_label_app. rewrite mem_label_filter.
            ++ destruct (mem_label l (alab a)), (mem_label l (alab b)); reflexivity.
            ++ intros x y E. rewrite (mem_label_eq _ _ _ E). reflexivity.
@@ -211,7 +211,7 @@ Proof.
   destruct (List.length (alab a) =? 0); [rewrite ax_cast_labels; exact Hb|].
   destruct (List.length (alab b) =? 0); [rewrite ax_cast_labels; exact Ha|].
   simpl. destruct (_ && _ && _ && _).
-  - destruct (label_le _ _); [apply nodup_labels_rev|]; apply strict_inc_nodup; apply union1d_sorted.
+  - destruct (slopes_down _ _); [apply nodup_labels_rev|]; apply strict_inc_nodup; apply union1d_sorted.
   - apply nodup_labels_app; [exact Ha | apply nodup_labels_filter; exact Hb |].
     intros x Hx. rewrite mem_label_filter.
     + rewrite Hx. simpl. apply andb_false_r.
